@@ -1174,7 +1174,7 @@ fn channels() -> Vec<Channel> {
         c("qdldl.dltsolve", run_tri, oracle_tri, "qdldl::_dltsolve_unsafe", "Qdldl.dltsolve"),
         c("qdldl.solve_raw", run_tri, oracle_tri, "qdldl::_solve", "Qdldl.solveRaw / C12.solve_correct"),
         c("qdldl.factor_raw", run_factor_raw, oracle_factor_raw, "QDLDLWorkspace::new + _factor + _factor_inner", "Qdldl.factor / Qdldl.factorInner / C12.pivot_rule"),
-        c("qdldl.new", run_new, oracle_new, "QDLDLFactorisation::new / _qdldl_new", "Qdldl.new"),
+        c("qdldl.new", run_new, oracle_new, "QDLDLFactorisation::new / _qdldl_new (perm = None: the ordering returned by get_amd_ordering (external amd crate) is read back (perm, iperm) and handed to the model as an input; the run answers amd-ordering-not-reproducible if a second call orders differently)", "Qdldl.new"),
         c("qdldl.ops", run_ops, oracle_ops, "QDLDLFactorisation::{update_values,scale_values,offset_values,refactor,solve}", "Qdldl.{updateValues,scaleValues,offsetValues,refactor,solve} / C12.update_commutes"),
     ]
 }
